@@ -228,6 +228,22 @@ func (g *globalCounterManager) doAcquire() {
 			result = requestReasonSuccess
 		}
 
+		// a flow control the answer carries no result for is a failed request
+		// for it: the tokens it asked for are not on their way any more
+		answered := map[string]bool{}
+		for _, r := range acquireResult.Status.Results {
+			answered[r.FlowControl] = true
+		}
+		for _, r := range acquireRequest.Spec.Requests {
+			if !answered[r.FlowControl] {
+				acquireResult.Status.Results = append(acquireResult.Status.Results, proxyv1alpha1.RateLimitAcquireResult{
+					FlowControl: r.FlowControl,
+					Accept:      false,
+					Error:       "no result in the answer of the limiter server",
+				})
+			}
+		}
+
 		for _, r := range acquireResult.Status.Results {
 			rs := r
 			g.lock.RLock()
